@@ -132,6 +132,7 @@ pub fn run(a: &Args) -> Option<Report> {
         "seq" | "seq-1cpu" | "seq-3cpu" => Some(run_seq(a)),
         "race" | "race-1cpu" => Some(run_race(a)),
         "clone-race" => Some(run_clone_race(a)),
+        "collide" => Some(run_collide(a)),
         "miri" | "tsan" => Some(run_race_small(a)),
         _ => None,
     }
@@ -501,6 +502,135 @@ fn run_clone_race(a: &Args) -> Report {
 }
 
 static LBL: [metrics::Label; 1] = [metrics::Label::from_static_parts("svc", "a")];
+
+// ------------------------------------------------------------------------------------------
+// Keys whose hashes collide: the registry is generic over `K: Eq + Hashable`; with a key type whose hash covers only
+// part of the key, different keys share hashes (and shards) all the time, and equality alone must keep them apart.
+// ------------------------------------------------------------------------------------------
+#[derive(Clone, Debug, PartialEq, Eq, PartialOrd, Ord)]
+struct CoarseKey {
+    name: u8,
+    tag: u8,
+}
+impl std::hash::Hash for CoarseKey {
+    fn hash<H: std::hash::Hasher>(&self, h: &mut H) {
+        // only the name: keys differing in `tag` collide
+        h.write_u8(self.name % 3);
+    }
+}
+impl metrics_util::Hashable for CoarseKey {
+    type Hasher = std::collections::hash_map::DefaultHasher;
+}
+struct CkStorage {
+    next: AtomicU64,
+}
+impl CkStorage {
+    fn mk(&self, kind: u8, k: &CoarseKey) -> Arc<Cell> {
+        let id = self.next.fetch_add(1, Ordering::SeqCst);
+        Arc::new(Cell { id, kind, key: KeyDesc { name: format!("{}/{}", k.name, k.tag), labels: vec![] }, value: AtomicU64::new(0) })
+    }
+}
+impl Storage<CoarseKey> for CkStorage {
+    type Counter = Arc<Cell>;
+    type Gauge = Arc<Cell>;
+    type Histogram = Arc<Cell>;
+    fn counter(&self, k: &CoarseKey) -> Arc<Cell> {
+        self.mk(0, k)
+    }
+    fn gauge(&self, k: &CoarseKey) -> Arc<Cell> {
+        self.mk(1, k)
+    }
+    fn histogram(&self, k: &CoarseKey) -> Arc<Cell> {
+        self.mk(2, k)
+    }
+}
+
+fn run_collide(a: &Args) -> Report {
+    let mut rep = Report::new("C06", &a.leg, a.seed);
+    let mut r = Rng::new(a.shard_seed());
+    let n = a.budget(1500, 150_000);
+    for _ in 0..n {
+        let reg: Registry<CoarseKey, CkStorage> = Registry::new(CkStorage { next: AtomicU64::new(1) });
+        let mut model: BTreeMap<(u8, CoarseKey), u64> = BTreeMap::new();
+        let mut trace: Vec<String> = Vec::new();
+        let steps = 4 + r.usize(40);
+        let mut h = 0u64;
+        let mut bad: Option<(String, String)> = None;
+        for _ in 0..steps {
+            let kind = r.below(3) as u8;
+            let k = CoarseKey { name: r.below(4) as u8, tag: r.below(3) as u8 };
+            let op = r.below(8);
+            h = mix(h, op ^ (kind as u64) << 4 ^ (k.name as u64) << 8 ^ (k.tag as u64) << 12);
+            match op {
+                0..=3 => {
+                    let (id, ckind, ckey) = match kind {
+                        0 => reg.get_or_create_counter(&k, |c| (c.id, c.kind, c.key.name.clone())),
+                        1 => reg.get_or_create_gauge(&k, |c| (c.id, c.kind, c.key.name.clone())),
+                        _ => reg.get_or_create_histogram(&k, |c| (c.id, c.kind, c.key.name.clone())),
+                    };
+                    trace.push(format!("get_or_create kind{} {:?} -> storage {} (made for kind{} {})", kind, k, id, ckind, ckey));
+                    let want_name = format!("{}/{}", k.name, k.tag);
+                    match model.get(&(kind, k.clone())) {
+                        Some(x) if *x == id => {}
+                        Some(x) => bad = Some(("C06:second-storage-for-live-key".into(), format!("live key got storage {} although {} exists", id, x))),
+                        None => {
+                            if ckind != kind || ckey != want_name || model.values().any(|v| *v == id) {
+                                bad = Some(("C06:storage-shared-between-keys".into(), format!("a new key was handed storage {} made for kind{} {}", id, ckind, ckey)));
+                            } else {
+                                model.insert((kind, k.clone()), id);
+                            }
+                        }
+                    }
+                }
+                4 | 5 => {
+                    let g = match kind {
+                        0 => reg.get_counter(&k).map(|c| c.id),
+                        1 => reg.get_gauge(&k).map(|c| c.id),
+                        _ => reg.get_histogram(&k).map(|c| c.id),
+                    };
+                    trace.push(format!("get kind{} {:?} -> {:?}", kind, k, g));
+                    if g != model.get(&(kind, k.clone())).cloned() {
+                        bad = Some(("C06:get-disagrees".into(), format!("get returned {:?}, model {:?}", g, model.get(&(kind, k.clone())))));
+                    }
+                }
+                6 => {
+                    let d = match kind {
+                        0 => reg.delete_counter(&k),
+                        1 => reg.delete_gauge(&k),
+                        _ => reg.delete_histogram(&k),
+                    };
+                    trace.push(format!("delete kind{} {:?} -> {}", kind, k, d));
+                    if d != model.remove(&(kind, k.clone())).is_some() {
+                        bad = Some(("C06:delete-reports-wrong-existence".into(), "delete's result disagrees with whether the key was live".into()));
+                    }
+                }
+                _ => {
+                    let mut listed: Vec<(CoarseKey, u64)> = match kind {
+                        0 => reg.get_counter_handles().into_iter().map(|(k, c)| (k, c.id)).collect(),
+                        1 => reg.get_gauge_handles().into_iter().map(|(k, c)| (k, c.id)).collect(),
+                        _ => reg.get_histogram_handles().into_iter().map(|(k, c)| (k, c.id)).collect(),
+                    };
+                    listed.sort();
+                    let exp: Vec<(CoarseKey, u64)> = model.iter().filter(|((kd, _), _)| *kd == kind).map(|((_, k), id)| (k.clone(), *id)).collect();
+                    trace.push(format!("handles kind{} -> {} entries", kind, listed.len()));
+                    if listed != exp {
+                        bad = Some(("C06:listing-differs".into(), format!("listed {:?}, expected {:?}", listed, exp)));
+                    }
+                }
+            }
+            if bad.is_some() {
+                break;
+            }
+        }
+        rep.case(h, model.len() >= 2);
+        if let Some((sig, what)) = bad {
+            rep.violation(format!("{}:colliding-hashes", sig), jo! {"what" => what, "key_type" => "custom key whose Hash covers only part of the key (different keys collide)", "history_tail" => J::A(trace.iter().rev().take(12).rev().map(|t| J::s(t.clone())).collect())});
+        } else if rep.want_sample() && trace.len() > 10 {
+            rep.sample(jo! {"colliding_key_type" => true, "history_excerpt" => J::A(trace.iter().take(12).map(|t| J::s(t.clone())).collect())});
+        }
+    }
+    rep
+}
 
 fn run_race(a: &Args) -> Report {
     let mut rep = Report::new("C06", &a.leg, a.seed);
